@@ -97,3 +97,13 @@ package req
 //@   at call:append#1 assert len(result) == len(at("entry", c.s.sendQ)) - 1
 //@   at call:append#1 assert forall(j, 0, i, result[j] == at("entry", c.s.sendQ)[j])
 //@   at call:append#1 assert forall(j, i, len(result), result[j] == at("entry", c.s.sendQ)[j+1])
+//@
+//@ func (*socket).OpenContext
+//@   ghost cl = s.closed at call:Lock#1
+//@   ensures cl ==> isnil(result0) && result1 == protocol.ErrClosed
+//@   ensures !cl ==> isnil(result1) && cast("*context", result0).s == s && has(s.contexts, cast("*context", result0)) && !cast("*context", result0).closed
+//@   ensures !cl ==> cast("*context", result0).bestEffort == s.defCtx.bestEffort
+//@   ensures !cl ==> cast("*context", result0).resendTime == s.defCtx.resendTime
+//@   ensures !cl ==> cast("*context", result0).sendExpire == s.defCtx.sendExpire
+//@   ensures !cl ==> cast("*context", result0).receiveExpire == s.defCtx.receiveExpire
+//@   ensures !cl ==> cast("*context", result0).failNoPeers == s.defCtx.failNoPeers
